@@ -494,6 +494,7 @@ func C04Cases(tier string, seed int64) []Case {
 		}
 	}
 	cases = append(cases, c04RedistributeCases(tier)...)
+	cases = append(cases, c04CanettiCases(tier)...)
 	return cases
 }
 
